@@ -1,18 +1,21 @@
 (** C09 — the cached flag never changes any result. *)
 From Coq Require Import List ZArith Bool.
-From MX Require Import Exec.Model Exec.Spec Exec.Sim Exec.Cover Exec.Quiet Exec.Edits3 Exec.Edits4 Exec.Edits6 Exec.Results Exec.Top.
+From MX Require Import Exec.Model Exec.Spec Exec.Sim Exec.Cover Exec.Quiet Exec.Edits3 Exec.Edits4 Exec.Edits6 Exec.Results Exec.Top Exec.Flags.
 Import ListNotations.
 
-(** PARTIAL.  Proved: (1) switching the flag of any cells at any point of a
-    history keeps the invariant, so afterwards every answer is again the
-    specification value of the current definitions — invalidation reaches
-    every held value computed through an uncached cells (the coverage
-    invariant records the uncached cells as a predecessor of the cached
-    caller); (2) uncached cells hold no values.
-    Not proved: that the specification value itself is independent of the
-    flags (it is, except for the None check that only cached cells perform:
-    recorded finding D33).  Reference changes, read by name or by attribute
-    path inside uncached cells, are covered (third theorem). *)
+(** (1) Switching the flag of any cells at any point of a history keeps the
+    invariant, so afterwards every answer is again the specification value of
+    the current definitions — invalidation reaches every held value computed
+    through an uncached cells (the coverage invariant records the uncached
+    cells as a predecessor of the cached caller); (2) uncached cells hold no
+    values; (3) the specification value itself does not depend on the flags
+    ([C09_spec_ignores_flags]; false of the pinned code, where only cached
+    cells performed the None check: finding D33, repaired in /repo 008a3ab),
+    hence (4) two reachable states whose definitions differ only in cached
+    flags answer every request alike ([C09_flags_never_change_a_result]).
+    Reference changes, read by name or by attribute path inside uncached
+    cells, are covered (third theorem).  The depth-limit error is excluded
+    from (4): the executor's stack bound is not part of the specification. *)
 Theorem C09_flag_change_keeps_invariant : forall fuel st c b x st',
   step fuel st (OpSetCached c b) = (x, st') -> x <> OFuel -> Quiet st -> s_reent st = false ->
   s_reent st' = true \/ Quiet st'.
@@ -34,3 +37,38 @@ Theorem C09_histories_with_flag_changes : forall fuel cells refs maxd ops xs st,
      agrees r (fun g => spec_eval g st i)).
 Proof. exact history_correct2. Qed.
 Print Assumptions C09_histories_with_flag_changes.
+
+Theorem C09_spec_ignores_flags : forall c1 c2 refs inp,
+  flags_only c1 c2 -> inputs_cached c1 inp -> inputs_cached c2 inp -> forall f,
+  (forall args locs e, sp_expr f (c1, refs) inp args locs e = sp_expr f (c2, refs) inp args locs e) /\
+  (forall args locs es, sp_args f (c1, refs) inp args locs es = sp_args f (c2, refs) inp args locs es) /\
+  (forall i, sp_node f (c1, refs) inp i = sp_node f (c2, refs) inp i) /\
+  (forall args locs rest, sp_body f (c1, refs) inp args locs rest = sp_body f (c2, refs) inp args locs rest).
+Proof. exact flags_irrelevant. Qed.
+Print Assumptions C09_spec_ignores_flags.
+
+Theorem C09_flags_never_change_a_result : forall fuel st1 st2 i r1 r2 st1' st2',
+  Quiet st1 -> Quiet st2 ->
+  flags_only (s_cells st1) (s_cells st2) -> s_refs st1 = s_refs st2 ->
+  (forall j, lookup_data (input_data st1) j = lookup_data (input_data st2) j) ->
+  eval_top fuel st1 i = (r1, st1') -> eval_top fuel st2 i = (r2, st2') ->
+  r1 <> OutOfFuel -> r2 <> OutOfFuel -> r1 <> Err KDeep -> r2 <> Err KDeep -> r1 = r2.
+Proof. exact flags_never_change_a_result. Qed.
+Print Assumptions C09_flags_never_change_a_result.
+
+(** non-vacuity: the same history under two flag assignments, a callee that
+    returns None (refused in both) and one that is allowed to *)
+Definition ex9f_cells (b1 b2 : bool) : list (cid * cell) :=
+  [ (0, mkCell [STry (ECall 1 [EPar 0]) (EConst (VInt 0)); SAssign (EBin Add (ELoc 0) (ECall 2 [EPar 0]))] 1 [] true false 0);
+    (1, mkCell [SAssign (EIfPos (EPar 0) (EPar 0) (EConst VNone))] 1 [] b1 false 0);
+    (2, mkCell [SAssign (EIfPos (ECall 3 [EPar 0]) (EConst (VInt 5)) (EConst (VInt 7)))] 1 [] b2 false 0);
+    (3, mkCell [SAssign (EBin Sub (EPar 0) (EConst (VInt 1)))] 1 [] true true 0) ].
+Example C09_flags_example :
+  let run_with b1 b2 := fst (run 100 (init (ex9f_cells b1 b2) [] 50) [OpEval (0, [VInt 0]); OpEval (0, [VInt 3]); OpEval (1, [VInt 0])]) in
+  run_with true true = [OErr KNone; OVal (VInt 8); OErr KNone]
+  /\ run_with false false = run_with true true /\ run_with true false = run_with true true
+  /\ flags_only (ex9f_cells true true) (ex9f_cells false false).
+Proof.
+  vm_compute. repeat split; try reflexivity.
+  intros c. do 4 (destruct c as [|c]; [vm_compute; repeat split; reflexivity|]). vm_compute. exact I.
+Qed.
